@@ -686,6 +686,42 @@ fn big_file_region_data_patterns() {
     // SAFETY: the region's own mapping.
     unsafe { std::slice::from_raw_parts_mut(region.as_ptr(), len) }.copy_from_slice(&model);
     let mut step = 0u64;
+    // data that equals what is already there in every whole page but differs in the unaligned edge
+    // bytes (a page-compare / skip-identical optimisation must still store the edges)
+    for (off, n) in [(5usize, (2usize << 20) + 10), (4090, (2 << 20) + 4096), (4096, (2 << 20) + 7), (3, (4 << 20) - 1)] {
+        for route in 0..2u8 {
+            let mut data: Vec<u8> = model[off..off + n].to_vec();
+            let head = (4096 - off % 4096) % 4096;
+            let tail = (off + n) % 4096;
+            let mut edges: Vec<usize> = vec![];
+            if head > 0 {
+                edges.extend([0, head - 1]);
+            }
+            if tail > 0 {
+                edges.extend([n - tail, n - 1]);
+            }
+            for e in &edges {
+                data[*e] ^= 0xa5;
+            }
+            let ok = match route {
+                0 => gm.write(&data, GuestAddress(base + off as u64)).ok() == Some(n),
+                _ => gm.write_slice(&data, GuestAddress(base + off as u64)).is_ok(),
+            };
+            model[off..off + n].copy_from_slice(&data);
+            // SAFETY: the region's own mapping.
+            let raw = unsafe { std::slice::from_raw_parts(region.as_ptr().add(off), n) };
+            let mut back = vec![0u8; n];
+            let got = gm.read(&mut back, GuestAddress(base + off as u64)).ok();
+            if !ok || got != Some(n) || back != model[off..off + n] || raw != &model[off..off + n] {
+                let bad = (0..n).find(|i| raw[*i] != model[off + *i]);
+                out::viol("C03/big-file-region/identical-pages-different-edges/what-was-written-is-not-what-is-read-back", jobj! {"route" => route, "off" => off, "len" => n, "first_wrong_byte" => J::dbg(&bad), "edge_bytes_changed" => J::dbg(&edges)});
+                return;
+            }
+            out::key(&format!("big-file-region|identical-pages-different-edges|route{}|off{}", route, off % 4096), true);
+            out::eval(1);
+            step += 1;
+        }
+    }
     for (fill, what) in [(Some(0u8), "zeros"), (Some(0xffu8), "ones"), (Some(0x41u8), "repeated-byte"), (None, "ordinary-data")] {
         for (off, n) in [(0usize, 2usize << 20), (2 << 20, 2 << 20), (4096, 4 << 20), (1 << 20, (2 << 20) + 4096), (4097, 2 << 20), (0, len)] {
             for route in 0..3u8 {
